@@ -384,6 +384,217 @@ end TTV.Generated.RouterSrc
        lean(add_term), policy_table(find_class(tree, 'StreamResultRouter')))
 
 
+# ------------------------------------------------------------------------------------------------ C10: _StreamToTestRecord
+UARGS = {'test_status': 'testStatus', 'test_tags': 'testTags', 'file_name': 'fileName', 'file_bytes': 'fileBytes',
+         'mime_type': 'mimeType', 'timestamp': 'timestamp'}
+
+
+class UpdateCase(Sym):
+    """`_StreamToTestRecord._update_case(self, case, test_status, test_tags, file_name, file_bytes, mime_type, timestamp)`:
+    the record's four fields after the call, as terms over the arguments and the record's old fields"""
+
+    def __init__(self, rec, params):
+        env = {'f:status': ('old', '.status'), 'f:ts1': ('old', '.ts1'), 'f:details': ('old', '.details'), 'f:tags': ('old', '.tags')}
+        for p in params:
+            if p in UARGS:
+                env[p] = ('arg', '.' + UARGS[p])
+        Sym.__init__(self, env)
+        self.rec = rec
+        self.returned = False
+
+    def special_assign(self, s):
+        t, v = s.targets[0], s.value
+        if not (isinstance(t, ast.Name) and t.id == self.rec and isinstance(v, ast.Call) and isinstance(v.func, ast.Attribute)
+                and isinstance(v.func.value, ast.Name) and v.func.value.id == self.rec):
+            return False
+        m, args, kws = v.func.attr, v.args, {k.arg: k.value for k in v.keywords}
+        if m == 'set':
+            field = None
+            if len(args) == 2 and not kws and isinstance(args[0], ast.Constant):
+                field, val = args[0].value, args[1]
+            elif not args and len(kws) == 1:
+                field, val = list(kws.items())[0]
+            if field in ('status', 'tags'):
+                self.env['f:' + field] = self.expr(val)
+                return True
+        if m == 'got_timestamp' and len(args) == 1 and not kws:
+            self.env['f:ts1'] = self.expr(args[0])
+            return True
+        if m == 'got_file' and (len(args), sorted(kws)) in ((3, []), (2, ['mime_type'])):
+            mime = args[2] if len(args) == 3 else kws['mime_type']
+            self.env['f:details'] = ('gotFile', self.env['f:details'], self.expr(args[0]), self.expr(args[1]), self.expr(mime))
+            return True
+        self.bad = True
+        return True
+
+    def effect(self, s):
+        if isinstance(s, ast.Return) and isinstance(s.value, ast.Name) and s.value.id == self.rec and not self.returned:
+            self.returned = True
+            for f in ('status', 'ts1', 'details', 'tags'):
+                self.env['out:' + f] = self.env['f:' + f]
+            return True
+        return False
+
+
+def update_case_terms(fn):
+    params = [a.arg for a in fn.args.args]
+    u = UpdateCase(params[1] if len(params) > 1 else 'case', params[2:])
+    if params[:1] != ['self'] or sorted(params[2:]) != sorted(UARGS) or fn.args.vararg or fn.args.kwarg:
+        u.bad = True
+    body = body_of(fn)
+    if not body or not isinstance(body[-1], ast.Return):
+        u.bad = True
+    u.block(body)
+    return [lean(u.out('out:' + f)) for f in ('status', 'ts1', 'details', 'tags')], params
+
+
+def record_status_stmts(fn, upd_params):
+    """`_StreamToTestRecord.status` -> [SStmt]"""
+    params = [a.arg for a in fn.args.args]
+    out = []
+    for s in body_of(fn):
+        src = ast.unparse(s)
+        if isinstance(s, ast.Expr) and isinstance(s.value, ast.Call) and ast.unparse(s.value.func) == 'super().status':
+            out.append(('superCall',))
+        elif src == 'key = self._ensure_key(test_id, route_code, timestamp)':
+            out.append(('ensureKey',))
+        elif src in ('if not key:\n    return', 'if key is None:\n    return'):
+            out.append(('returnUnlessKey',))
+        elif isinstance(s, ast.Assign) and len(s.targets) == 1 and ast.unparse(s.targets[0]) == 'self._inprogress[key]' \
+                and isinstance(s.value, ast.Call) and ast.unparse(s.value.func) == 'self._update_case' and not s.value.keywords \
+                and [ast.unparse(a) for a in s.value.args] == ['self._inprogress[key]'] + upd_params[2:]:
+            out.append(('updateCase',))      # every argument is handed to the parameter of the same name
+        elif isinstance(s, ast.If) and not s.orelse and ast.unparse(s.test) == 'test_status not in INTERIM_STATES':
+            body = []
+            for b in s.body:
+                bs = ast.unparse(b)
+                body.append({'self.on_test(self._inprogress.pop(key))': ('handOverPop',),
+                             'self.on_test(self._inprogress[key])': ('handOverKeep',),
+                             'del self._inprogress[key]': ('delKey',), 'self._inprogress.pop(key)': ('delKey',)}.get(bs, OTHER))
+            out.append(('ifFinal', body))
+        else:
+            out.append(OTHER)
+    if params[:3] != ['self', 'test_id', 'test_status']:
+        out.append(OTHER)
+    return out
+
+
+def ensure_key_stmts(fn):
+    out = []
+    if [a.arg for a in fn.args.args] != ['self', 'test_id', 'route_code', 'timestamp']:
+        out.append(OTHER)
+    for s in body_of(fn):
+        src = ast.unparse(s)
+        out.append({'if test_id is None:\n    return': ('returnIfNoId',),
+                    'if test_id is None:\n    return None': ('returnIfNoId',),
+                    'key = (test_id, route_code)': ('makeKey',),
+                    'if key not in self._inprogress:\n    self._inprogress[key] = _TestRecord.create(test_id, timestamp)': ('createIfAbsent',),
+                    'return key': ('returnKey',)}.get(src, OTHER))
+    return out
+
+
+def record_stop_stmts(fn):
+    out = []
+    for s in body_of(fn):
+        src = ast.unparse(s)
+        if src == 'super().stopTestRun()':
+            out.append(('superCall',))
+        elif isinstance(s, ast.While) and not s.orelse and ast.unparse(s.test) == 'self._inprogress':
+            body = [ast.unparse(b) for b in s.body]
+            if len(body) == 2 and isinstance(s.body[0], ast.Assign) and isinstance(s.body[0].targets[0], ast.Name) \
+                    and ast.unparse(s.body[0].value) == 'self._inprogress.popitem()[1]' \
+                    and body[1] == 'self.on_test(%s.got_timestamp(None))' % s.body[0].targets[0].id:
+                out.append(('drainPopitem',))
+            else:
+                out.append(OTHER)
+        else:
+            out.append(OTHER)
+    return out
+
+
+def forward_stmts(fn, method, hook):
+    """wrappers that hand a call on to their `_StreamToTestRecord` (`StreamToDict`, `StreamToExtendedDecorator`) -> [FStmt]"""
+    out = []
+    for s in body_of(fn):
+        src = ast.unparse(s)
+        if src in ('super().%s(*args, **kwargs)' % method, 'super().%s()' % method):
+            out.append(('superCall',))
+        elif src in ("if test_status == 'exists':\n    return", "if test_status == 'exists':\n    return None"):
+            out.append(('returnIfExists',))
+        elif src in ('self.%s.%s(*args, **kwargs)' % (hook, method), 'self.%s.%s()' % (hook, method),
+                     'self.%s.status(*args, test_id=test_id, test_status=test_status, **kwargs)' % hook):
+            out.append(('hookCall',))
+        elif src in ('self.decorated.%s()' % method,):
+            out.append(('decoratedCall',))
+        else:
+            out.append(OTHER)
+    return out
+
+
+def handle_stmts(fn):
+    """`StreamToExtendedDecorator._handle_tests` / `StreamToDict._handle_test` -> [GStmt]"""
+    out = []
+    p = [a.arg for a in fn.args.args]
+    rec = p[1] if len(p) == 2 else '?'
+    for s in body_of(fn):
+        src = ast.unparse(s)
+        out.append({'case = %s.to_test_case()' % rec: ('toTestCase',), 'case.run(self.decorated)': ('runCase',),
+                    '%s.to_test_case().run(self.decorated)' % rec: ('toTestCaseRun',),
+                    'self.on_test(%s.to_dict())' % rec: ('onTestDict',)}.get(src, OTHER))
+    return out
+
+
+def consumer_src(tree):
+    terms, upd_params = update_case_terms(find(tree, '_StreamToTestRecord', '_update_case'))
+    return '''import TTV.Model.ConsumerSrc
+/-! GENERATED by harness/pystream.py from testtools/testresult/real.py on every run - do not edit.
+`_StreamToTestRecord`: the four fields of the record after `_update_case` (symbolically executed to terms), the statement
+lists of `status`, `_ensure_key`, `stopTestRun`; the forwarding wrappers `StreamToDict` and `StreamToExtendedDecorator`. -/
+namespace TTV.Generated.ConsumerSrc
+open TTV.ConsumerSrc
+
+def updStatus : UExpr :=
+  %s
+def updTs1 : UExpr :=
+  %s
+def updDetails : UExpr :=
+  %s
+def updTags : UExpr :=
+  %s
+
+def recordStatus : List SStmt := %s
+def ensureKey : List EStmt := %s
+def recordStop : List DStmt := %s
+
+def dictStatus : List FStmt := %s
+def dictStart : List FStmt := %s
+def dictStop : List FStmt := %s
+def dictHandle : List GStmt := %s
+
+def extStatus : List FStmt := %s
+def extStart : List FStmt := %s
+def extStop : List FStmt := %s
+def extHandle : List GStmt := %s
+
+end TTV.Generated.ConsumerSrc
+''' % (terms[0], terms[1], terms[2], terms[3],
+       lean(record_status_stmts(find(tree, '_StreamToTestRecord', 'status'), upd_params)),
+       lean(ensure_key_stmts(find(tree, '_StreamToTestRecord', '_ensure_key'))),
+       lean(record_stop_stmts(find(tree, '_StreamToTestRecord', 'stopTestRun'))),
+       lean(forward_stmts(find(tree, 'StreamToDict', 'status'), 'status', '_hook')),
+       lean(forward_stmts(find(tree, 'StreamToDict', 'startTestRun'), 'startTestRun', '_hook')),
+       lean(forward_stmts(find(tree, 'StreamToDict', 'stopTestRun'), 'stopTestRun', '_hook')),
+       lean(handle_stmts(find(tree, 'StreamToDict', '_handle_test'))),
+       lean(forward_stmts(find(tree, 'StreamToExtendedDecorator', 'status'), 'status', 'hook')),
+       lean(forward_stmts(find(tree, 'StreamToExtendedDecorator', 'startTestRun'), 'startTestRun', 'hook')),
+       lean(forward_stmts(find(tree, 'StreamToExtendedDecorator', 'stopTestRun'), 'stopTestRun', 'hook')),
+       lean(handle_stmts(find(tree, 'StreamToExtendedDecorator', '_handle_tests'))))
+
+
+def generate_consumer(repo):
+    return {'TTV/Generated/ConsumerSrc.lean': consumer_src(parse(repo))}
+
+
 def parse(repo):
     return ast.parse(open(os.path.join(repo, 'testtools', 'testresult', 'real.py')).read())
 
@@ -394,5 +605,7 @@ def generate_router(repo):
 
 if __name__ == '__main__':
     import sys
-    for k, v in generate_router(sys.argv[1] if len(sys.argv) > 1 else '/repo').items():
-        print(v)
+    repo = sys.argv[1] if len(sys.argv) > 1 else '/repo'
+    for g in (generate_router, generate_consumer):
+        for k, v in g(repo).items():
+            print(v)
